@@ -138,10 +138,10 @@ CHECKS["C18"] = {
     "technique": 'Lean 4 proofs (MH.base_step_db / factProd_swap instances, termwise scaling of the allele-level pmf, product splitting over the blanket) + differential correspondence of probability vectors / prob_accept + exact-conditional and detailed-balance oracles',
 }
 CHECKS["C19"] = {
-    "text": "Lean theorems over the model of find_snvs.bam_region_depths / write_vcf_block: depths equal the configured-filter pileup on the region where the remaining engine defaults do not intervene, with machine-checked counter-examples outside it; the specification's depths are monotone and additive in each filter option; an allele is listed iff it meets ind-maf / ind-mad / min-ind, maf, mad; a record is emitted iff >= 2 alleles are kept; REF first, REFMASKED iff REF failed; ALT by non-increasing mean frequency.",
+    "text": "Lean theorems over the model of find_snvs.bam_region_depths / write_vcf_block: the configured read filters are translated into the pileup's flag mask and MAPQ threshold so that the engine's read filter is the configured one plus 'not secondary, not an orphan mate' (enginePasses_engineCfgOf); on regions whose fetched records have no secondary record, no orphan mate, base qualities >= 13 and distinct read names the depths are exactly the base calls among the reads passing the configured filters (depths_eq_spec_partial) and each option changes them by exactly the reads it governs (filter_option_effect, monotone); machine-checked witnesses outside that region (4 open causes) and regression statements for the 4 repaired causes; an allele is listed iff it meets ind-maf / ind-mad / min-ind, maf (mean over samples with reads) and mad; emitted iff >= 2 kept; REF first, REFMASKED iff REF failed; ALT by non-increasing mean frequency. Tied to bam_region_depths, write_vcf_block and find-snvs stdout by differential runs; every deviation of the real depths from the property is attributed to its cause by a per-feature stream.",
     "design_ref": "DESIGN.md section 4, C19",
-    "note": _NOTE + 'partial: the pileup engine (htslib + pysam defaults) is modelled from observed behaviour and tied only by correspondence. Open known findings: secondary reads, base quality < 13, orphan mates and overlapping mates are dropped / merged by engine defaults no option governs. Guards the F7 / F15 repairs by signature.',
-    "technique": 'Lean 4 proof (countP / filter algebra, sort stability, partial-correctness theorem + decide witnesses) + differential correspondence (in-process, patched depths, CLI) + exact-arithmetic property oracle with per-cause attribution',
+    "note": _NOTE + "partial: the pileup engine (htslib bam_plp + pysam defaults: secondary masked, base quality >= 13, orphans dropped, overlapping-mate quality tweak) is modelled from observed behaviour and tied only by correspondence; mates with D/N ops inside an overlap are outside the model. Open known findings: secondary-dropped, baseq13-dropped, orphans-dropped, overlapping-mates-merged. Guards the F7 / F15 repairs by signature.",
+    "technique": "Lean 4 proof (bit-mask <-> flag predicates, countP / filter algebra, sort stability, partial-correctness theorem + decide witnesses and regression statements) + differential correspondence (in-process, patched depths, CLI) + exact-arithmetic property oracle with per-cause attribution",
 }
 CHECKS["C20"] = {
     "text": "Lean model of atomize's block function with theorems: line at POS+SNVPOS-1 with PS=POS; sample GT = projection of the haplotype GT; site alleles numbered by first appearance with REF first; AC/ACP/DS = haplotype-level counts marginalised to the site; skipped without SNVs; totality on every record shape. Tied to atomize by generated haplotype VCFs of every shape and by real assemble / call / call-exact outputs parsed independently.",
